@@ -3,8 +3,11 @@ CONSTANTS
   Clients = {"c1", "c2"}
   Ids = {"s1", "s2"}
   MaxCalls = 3
-  Locked = TRUE
+  MapsLocked = TRUE
+  SessLocked = TRUE
+  OldDelete = FALSE
   StepGuard = TRUE
   NilGuard = FALSE
+  WithClose = FALSE
   defaultInitValue = 0
 INVARIANTS NoNilCancel
